@@ -15,6 +15,7 @@ import (
 	"github.com/cloudwego/gopkg/protocol/thrift/apache"
 
 	"verif/mc"
+	"verif/vdump"
 )
 
 // C19 — apache bridge: buffer transport is the buffer; callbacks pass through.
@@ -30,6 +31,10 @@ type c19Sys struct {
 	fifo []byte
 	wn   int
 	dead bool
+	// bytes.Buffer lets the caller push back the last byte read, if the last operation on the buffer was a read that
+	// returned something; the transport IS the buffer, so that holds across both handles
+	canUnread bool
+	lastByte  byte
 }
 
 type c19Op struct {
@@ -58,7 +63,7 @@ func newC19Sys(ctor string) *c19Sys {
 	for _, n := range c19Reads {
 		s.ops = append(s.ops, c19Op{"Tread", n}, c19Op{"Bread", n})
 	}
-	s.ops = append(s.ops, c19Op{"Breset", 0}, c19Op{"Tclose", 0}, c19Op{"Tmisc", 0})
+	s.ops = append(s.ops, c19Op{"Breset", 0}, c19Op{"Tclose", 0}, c19Op{"Tmisc", 0}, c19Op{"Bunread", 0}, c19Op{"Tcopy", 2}, c19Op{"Tcopy", 4})
 	return s
 }
 
@@ -75,13 +80,20 @@ func (s *c19Sys) Reset() {
 	} else {
 		s.T = apache.NewDefaultTransport(s.B)
 	}
-	s.fifo, s.wn, s.dead = s.fifo[:0], 0, false
+	s.fifo, s.wn, s.dead, s.canUnread = s.fifo[:0], 0, false, false
 }
 func (s *c19Sys) Key() string {
-	if len(s.fifo) > 256 {
-		return fmt.Sprintf("%d:%s", len(s.fifo), digest(s.fifo))
+	u := "-"
+	if s.canUnread {
+		u = fmt.Sprintf("u%02x", s.lastByte)
 	}
-	return string(s.fifo)
+	// the REAL buffer's private state (read by reflection) is part of the key: two histories are merged only if the object
+	// itself is in the same state, not merely the model of it
+	real := vdump.Key(s.B, vdump.Opt{Content: true})
+	if len(s.fifo) > 256 {
+		return fmt.Sprintf("%s%d:%s|%s", u, len(s.fifo), digest(s.fifo), real)
+	}
+	return u + string(s.fifo) + "|" + real
 }
 
 func (s *c19Sys) stampPayload(i int) []byte {
@@ -118,6 +130,31 @@ func (s *c19Sys) Apply(op int, check bool) (what, sig string) {
 				return
 			}
 			s.fifo = append(s.fifo, p...)
+			s.canUnread = false
+		case "Tcopy":
+			// io.Copy into the transport from a size-limited reader whose limit is far beyond the data (and beyond anything
+			// that could be allocated): the data arrives, like in a copy into the plain buffer
+			p := s.stampPayload(o.n)
+			n, err := io.Copy(s.T, io.LimitReader(bytes.NewReader(p), math.MaxInt64))
+			if n != int64(len(p)) || err != nil {
+				fail("copy-result", "io.Copy(transport, LimitReader(%d bytes, MaxInt64)) = (%d, %v)", len(p), n, err)
+				return
+			}
+			s.fifo = append(s.fifo, p...)
+			s.canUnread = false
+		case "Bunread":
+			err := s.B.UnreadByte()
+			if s.canUnread {
+				if err != nil {
+					fail("unread", "UnreadByte right after a read that returned data failed: %v", err)
+					return
+				}
+				s.fifo = append([]byte{s.lastByte}, s.fifo...)
+			} else if err == nil {
+				fail("unread", "UnreadByte succeeded although the last operation on the buffer was not a read that returned data (after a Close / Reset / write the buffer has nothing to give back)")
+				return
+			}
+			s.canUnread = false
 		case "Tread", "Bread":
 			p := make([]byte, o.n)
 			var n int
@@ -139,16 +176,22 @@ func (s *c19Sys) Apply(op int, check bool) (what, sig string) {
 				fail("read-eof", "Read on an empty buffer returned %v, want io.EOF", err)
 				return
 			}
+			s.canUnread = n > 0
+			if n > 0 {
+				s.lastByte = p[n-1]
+			}
 			s.fifo = s.fifo[want:]
 		case "Breset":
 			s.B.Reset()
 			s.fifo = s.fifo[:0]
+			s.canUnread = false
 		case "Tclose":
 			if err := s.T.Close(); err != nil {
 				fail("close-error", "Close returned %v", err)
 				return
 			}
 			s.fifo = s.fifo[:0]
+			s.canUnread = false
 		case "Tmisc":
 			// IsOpen/Open/Flush: their results are not part of the property; they must not disturb the buffer (checked below)
 			s.T.IsOpen()
@@ -623,7 +666,7 @@ func c19Run(c *mc.Ctx) {
 func init() {
 	Register(&Check{
 		ID: "C19", Level: "model_checking", Shards: 4,
-		Rule:        "explicit-state BFS over histories of T.Write/B.Write (4 payloads), T.Read/B.Read (4 sizes), B.Reset, T.Close, IsOpen/Open/Flush on the two handles of one bytes.Buffer, for both constructors; states keyed by the FIFO content; after every transition reads, RemainingBytes, B.Len and B.Bytes are compared with a byte-FIFO model; plus the generic transport over all readable-length classes and all callback registration/call sequences of <= 4 steps",
+		Rule:        "explicit-state BFS over histories of T.Write/B.Write (4 payloads), T.Read/B.Read (4 sizes), B.Reset, T.Close, IsOpen/Open/Flush, B.UnreadByte, io.Copy(T, LimitReader) on the two handles of one bytes.Buffer, for both constructors; states keyed by the FIFO content, the push-back state and the real buffer's private state (by reflection); after every transition reads, RemainingBytes, B.Len and B.Bytes are compared with a byte-FIFO model; plus the generic transport over all readable-length classes and all callback registration/call sequences of <= 4 steps",
 		Assumptions: []string{"callback registration is process-global state: the callback part runs in a single worker"},
 		Run:         c19Run,
 		Replay: func(c *mc.Ctx, sub string, raw json.RawMessage) {
